@@ -14,6 +14,18 @@ HOOK_COMMITS = []
 PENDING = {}
 
 PROPS = {
+    "C02": dict(
+        sim="powsim", props_file="Props/C02.v", shrink=False,
+        n_quick=200, n_thorough=3000, shards_quick=16, shards_thorough=16,
+        technique="Coq proof (compact codec lemmas, DAA = network algorithm, accept soundness/completeness, no-panic, kernel sweep of the real fixture chain) + in-kernel differential correspondence with the bitcoin/headers code",
+        level_text="Machine-checked: an accepting verdict implies hash <= decoded target and, from 556767 on, bits = compact(network DAA target of the header's own branch); the DAA model equals the network algorithm (signed span clamp, 3-swap median, (2^256-W)/W, cap); the verdict function never panics and the exact set of crashing bits is characterised; every real header of the shipped fixture chains is accepted (vm_compute sweep). Tied to the code by comparing ConvertToDifficulty/Work/Bits on all 256 exponent bytes, Branch.Target on generated adversarial chains (root and fork), and ProcessHeader with difficulty ON on the real chains and on 13 kinds of mutations of real headers.",
+        level_note="Proof is about coq/Base/Compact.v and coq/Headers/Pow.v; SHA-256d is not modelled (real hash values are inputs). Acceptance of synthetic headers at height >= 556767 cannot be exercised end to end (mining); it is covered by Branch.Target cases plus mutations of real headers. Consts.v and Fixture.v are regenerated from /repo on every run.",
+        assumptions=[
+            "the block hash value and the six (timestamp, cumulative work) samples are inputs of the model; cumulative work is the implementation's AccumulatedWork(), whose per-header increments are checked separately (decode cases)",
+            "compact encodings with the sign bit or an exponent above 32 are decoded as the dependency decodes them (no negative/overflow rejection below the activation height; observation in DESIGN.md)",
+        ],
+        mismatch_meaning="ConvertToDifficulty/Work/Bits, Branch.Target or the ProcessHeader verdict with difficulty checks on differs from the model (network algorithm) on this input, or the call panicked",
+    ),
     "C01": dict(
         sim="hdrsim", props_file="Props/C01.v", sim_args=["-profile", "C01"],
         n_quick=600, n_thorough=6000, shards_quick=16, shards_thorough=16,
